@@ -214,7 +214,9 @@ m("c19-second-header-omitted",["C19"],"cmd/cim2cas/cim2cas.go","\t_, err = w.Wri
 m("c19-name-truncated-to-5",["C19"],"cmd/cim2cas/cim2cas.go","\tif len(name) > 6 {\n\t\tname = name[:6]\n\t}","\tif len(name) > 5 {\n\t\tname = name[:5]\n\t}")
 m("c19-body-patched",["C19"],"cmd/cim2bin/cim2bin.go","\t// write body\n\t_, err = w.Write(b)","\t// write body\n\tif len(b) > 0 && b[0] == 0xFE {\n\t\tb[0] = 0xC3\n\t}\n\t_, err = w.Write(b)",note="image altered when it starts with FE")
 m("c19-header-mutated-at-runtime",["C19"],"cmd/cim2cas/cim2cas.go","\tvar off = uint16(off0)\n\tif nam == \"\" {","\tvar off = uint16(off0)\n\tif off == 0 {\n\t\theader = typeBin[:8]\n\t}\n\tif nam == \"\" {")
-m("c19-ignores-write-error",["C19"],"cmd/cim2bin/cim2bin.go","\terr = w.WriteByte(0xFE)\n\tif err != nil {\n\t\treturn err\n\t}","\t_ = w.WriteByte(0xFE)",note="keeps writing after a failed write")
+m("c19-no-flush",["C19"],"cmd/cim2bin/cim2bin.go","\treturn w.Flush()","\treturn nil",note="the buffered tail never reaches the file")
+m("c19-u16-two-writebytes-refactor",["C19"],"cmd/cim2bin/cim2bin.go","\tvar buf [2]byte\n\tbuf[0] = uint8(u16)\n\tbuf[1] = uint8(u16 >> 8)\n\t_, err := w.Write(buf[:])\n\treturn err","\tif _, err := w.Write([]byte{uint8(u16)}); err != nil {\n\t\treturn err\n\t}\n\t_, err := w.Write([]byte{uint8(u16 >> 8)})\n\treturn err",expect="silent",note="same bytes, different grouping into writes")
+m("c19-ignores-write-error",["C19"],"cmd/cim2bin/cim2bin.go","\terr = w.WriteByte(0xFE)\n\tif err != nil {\n\t\treturn err\n\t}","\t_ = w.WriteByte(0xFE)",note="keeps writing after a failed write: the emitted bytes on the successful path are unchanged, and the property is about those (the earlier rule demanded more than the property states)",expect="silent")
 m("c19-end-refactor",["C19"],"cmd/cim2bin/cim2bin.go","err = writeU16(w, off+uint16(len(b))-1)","err = writeU16(w, uint16(len(b)-1)+off)",expect="silent",note="equivalent end address arithmetic")
 
 # ---- C18
